@@ -6,9 +6,11 @@
 (* trace observed on the real UtxoScanner.                                 *)
 (*                                                                         *)
 (* Encoding (integers only in everything that is compared):                *)
-(*  obs.chain  the chain the environment serves, index = height 1..H; a    *)
-(*             block is a sequence of transactions [id, nout, ins] where   *)
-(*             ins is a sequence of outpoints <<txid, index>>              *)
+(*  obs.cid    which chain of ChainTable (module UtxoScanChains, generated *)
+(*             per run from the same description the driver builds its     *)
+(*             real blocks from) the environment serves; index = height    *)
+(*             1..H; a block is a sequence of transactions [id, nout, ins] *)
+(*             where ins is a sequence of outpoints <<txid, index>>        *)
 (*  obs.best   best height the environment currently reports (blocks above *)
 (*             it have not arrived yet)                                    *)
 (*  obs.pc     where the batch manager goroutine is blocked (PC_* below):  *)
@@ -24,7 +26,7 @@
 (*             <<K_SHUT,0,0,0>>  ErrShuttingDown       <<K_BAD,..>> other  *)
 (* act = [op, a, b, c, res]                                                *)
 (***************************************************************************)
-EXTENDS Integers, Sequences, FiniteSets
+EXTENDS Integers, Sequences, FiniteSets, UtxoScanChains
 
 PC_IDLE   == 0   \* parked in cv.Wait, queue empty
 PC_WAKE   == 1   \* woken (Enqueue / Stop signalled), about to re-take the lock
@@ -113,7 +115,7 @@ Legal(x, r, act, a2, o2) ==
   CASE x[1] = K_SHUT -> a2.quit                       \* "or the client shuts down"
     [] x[1] = K_ERR  -> act.op \in BmOps /\ act.res = "fail"   \* "the scan cannot complete"
     [] x[1] \in {K_SPEND, K_UTXO, K_EMPTY} ->
-         Same(x, Fate(<<r.tx, r.idx>>, r.start, o2.chain, o2.best))
+         Same(x, Fate(<<r.tx, r.idx>>, r.start, ChainTable[o2.cid], o2.best))
     [] OTHER -> FALSE
 
 Viol(a, o, act, a2, o2) ==
